@@ -30,10 +30,10 @@ MODEL = {
               ("emitsw", {"MaxEvents": 1, "MaxArm": 1, "NestIf": "FALSE", "AtomSet": '"small"', "Sw": "TRUE", "Emit": "TRUE"})],
     "thorough": [("mc3", {"MaxEvents": 3, "MaxArm": 1, "NestIf": "FALSE", "AtomSet": '"full"', "Sw": "FALSE", "Emit": "FALSE"}),
                  ("mcsw2", {"MaxEvents": 2, "MaxArm": 1, "NestIf": "FALSE", "AtomSet": '"full"', "Sw": "TRUE", "Emit": "FALSE"}),
-                 ("mcnest", {"MaxEvents": 1, "MaxArm": 2, "NestIf": "TRUE", "AtomSet": '"small"', "Sw": "FALSE", "Emit": "FALSE"}),
+                 ("mcnest", {"MaxEvents": 1, "MaxArm": 1, "NestIf": "TRUE", "AtomSet": '"small"', "Sw": "FALSE", "Emit": "FALSE"}),
                  ("emit", {"MaxEvents": 2, "MaxArm": 1, "NestIf": "FALSE", "AtomSet": '"full"', "Sw": "FALSE", "Emit": "TRUE"}),
                  ("emitsw", {"MaxEvents": 1, "MaxArm": 1, "NestIf": "FALSE", "AtomSet": '"full"', "Sw": "TRUE", "Emit": "TRUE"}),
-                 ("emitnest", {"MaxEvents": 1, "MaxArm": 2, "NestIf": "TRUE", "AtomSet": '"small"', "Sw": "FALSE", "Emit": "TRUE"})],
+                 ("emitnest", {"MaxEvents": 1, "MaxArm": 1, "NestIf": "TRUE", "AtomSet": '"small"', "Sw": "FALSE", "Emit": "TRUE"})],
 }
 
 
@@ -106,6 +106,7 @@ class Builder:
         # NOTE: a branch inside a shared callee gets one static condition; the model explores the
         # choices of every dynamic occurrence independently, which includes the real ones
         name = f"g{len(self.fns) + 1}"
+        self.fns[key] = (name, f["feed"] >= 2)      # reserve the name before the callees of the body take theirs
         b, tup = self.body(f, "x")
         self.fns[key] = (name, tup)
         self.defs.append(f"fn {name}(x){{\n  {b}\n}}")
